@@ -26,7 +26,7 @@ for f in sorted(glob.glob(os.path.join(V, 'evidence', 'C*.json'))):
         n = len(hs) if hs is not None else c.get('harness_count', '?')
         rows.append('| %s | K | %s | %s CBMC checks | %.0f | %s |' % (p, n, c.get('transitions'), e['wall_s'], EXCL[p]))
 txt = ("### 10.7 As built, per property (from the committed evidence of the last clean %s sweep)\n\n"
-       "| property | engine | harnesses | decided | wall s | outside the claim |\n|---|---|---|---|---|---|\n" % json.load(open(os.path.join(V, 'evidence', 'C01.json')))['tier']) + '\n'.join(rows) + "\n\nThe thorough tier of all twenty checks passes on the unchanged tree (last full thorough sweep on an otherwise idle machine, after round 5: 6-250 s each; C14 246 s, C16 with 338 harnesses 168 s, C17 with 200 programs 189 s, C19 with all 144 cast pairs 120 s, C20 246 s; 25 minutes in total).\n"
+       "| property | engine | harnesses | decided | wall s | outside the claim |\n|---|---|---|---|---|---|\n" % json.load(open(os.path.join(V, 'evidence', 'C01.json')))['tier']) + '\n'.join(rows) + "\n\nThe thorough tier of all twenty checks passes on the unchanged tree (last full thorough sweep on an otherwise idle machine, with the second lowering on every harness: 8-310 s each except C17, whose 400 programs in two lowerings take 16 minutes; C14 311 s, C16 with 338 harnesses 244 s, C20 294 s; about 45 minutes in total).\n"
 p = os.path.join(V, 'DESIGN.md')
 s = open(p).read()
 i = s.find('### 10.7')
